@@ -6,8 +6,8 @@ func v1(p string) string { return p + " v1\n" }
 func v2(p string) string { return p + " v2\n" }
 
 func checkC04(e *RunEnv) *CheckResult {
-	paths := []string{"a", "d/x", "d/y", "d/s/z", "ad/x", "d-x"}
-	singles := []string{"a", "d/x", "d/y", "d/s/z", "ad/x", "d-x", "d", "d/s", "ad", "nope", "d/nope", "d/", "./d", "./a", "d/s/."}
+	paths := []string{"a", "d/x", "d/y", "d/s/z", "ad/x", "d-x", "d0", "a b"}
+	singles := []string{"a", "d/x", "d/y", "d/s/z", "ad/x", "d-x", "d0", "a b", "d", "d/s", "ad", "nope", "d/nope", "d/", "./d", "./a", "d/s/."}
 	pairAlpha := []string{"a", "d", "d/x", "nope"}
 	if e.Thorough() {
 		pairAlpha = []string{"a", "d", "d/x", "nope", "ad", "d-x", "d/s"}
@@ -21,8 +21,8 @@ func checkC04(e *RunEnv) *CheckResult {
 			argLists = append(argLists, []string{x, y})
 		}
 	}
-	seedA := append(seedS0(), Write("a", v1("a")), Write("d/x", v1("d/x")), Write("d/y", v1("d/y")), Write("ad/x", v1("ad/x")), Write("d-x", v1("d-x")), Write("d/s/z", v1("d/s/z")))
-	seedB := append(append([]Step{}, seedA...), Run("add", "a", "d", "ad", "d-x"), Run("commit", "-m", "c1"))
+	seedA := append(seedS0(), Write("d0", v1("d0")), Write("a b", v1("a b")), Write("a", v1("a")), Write("d/x", v1("d/x")), Write("d/y", v1("d/y")), Write("ad/x", v1("ad/x")), Write("d-x", v1("d-x")), Write("d/s/z", v1("d/s/z")))
+	seedB := append(append([]Step{}, seedA...), Run("add", "a", "d", "ad", "d-x", "d0", "a b"), Run("commit", "-m", "c1"))
 	spec := &Spec{
 		Seeds: []Seed{{"S0+files", seedA}, {"S1+all-tracked", seedB}},
 		Depth: e.pick(3, 4),
